@@ -329,3 +329,246 @@ Proof.
 Qed.
 
 End Window.
+
+(* ---- the driver loop ---------------------------------------------------------------------- *)
+Section Driver.
+Variables (hdr : list cell) (rows : list (list cell)) (file : list Z) (crs ncols : Z) (offs index_map : list Z).
+Let ALL := render_file (hdr :: rows).
+Let cbs := crs * 2 * ncols.
+Let V := nthZ offs ncols.
+Hypothesis Hncols : 0 < ncols.
+Hypothesis Hhdr : len hdr = ncols.
+Hypothesis Hrect : Forall (fun rw : list cell => len rw = ncols) rows.
+Hypothesis Hfile : file = ALL \/ (file ++ [NL] = ALL /\ file <> [] /\ last file NL <> NL).
+Hypothesis Hwin : forall r, In r (hdr :: rows) -> len (render_row r) <= cbs.
+Hypothesis Hoffs : len offs = ncols + 1.
+Hypothesis Hoffs0 : nthZ offs 0 = 0.
+Hypothesis Hbudget : forall c, 0 <= c < ncols -> nthZ offs c + len (CB rows c) < nthZ offs (c + 1).
+Hypothesis Himap : Forall (fun c => 0 <= c < ncols) index_map.
+
+Lemma cbs_pos : 0 < cbs.
+Proof. pose proof (Hwin hdr (or_introl eq_refl)) as H. pose proof (len_render_row_ge hdr) as (_ & H1). lia. Qed.
+
+Lemma crs_pos : 0 < crs.
+Proof. pose proof cbs_pos as H. unfold cbs in H. nia. Qed.
+
+Definition Inv (j:nat) (d:dst) : Prop :=
+  (j <= length rows)%nat /\
+  d_chunk d = len (render_file (hdr :: firstn j rows)) /\ d_hdr d = false /\ d_acc d = Z.of_nat j /\
+  d_ifull d = false /\ d_vfull d = false /\ d_offs d = offs /\
+  (exists wd, crs * 2 + 1 <= wd /\ shape ncols wd (d_inds d)) /\
+  (forall c, 0 <= c < ncols -> I2 (d_inds d) c 0 = 0) /\ len (d_vals d) = V /\
+  d_imps d = map (imp_of (firstn j rows)) index_map.
+
+(* one iteration of the driver, once the kernel call and the import are known *)
+Lemma drv_step_post chunk hd acc inds vals cont st imps tr out imps' :
+  len (slice file chunk (chunk + cbs)) <> 0 ->
+  fast_csv_reader (fsm_fuel (content_of file cbs chunk) 0) (content_of file cbs chunk) 0 inds vals offs hd = Ok out ->
+  f_vfull out = false -> 0 < f_next out -> (f_ifull out = true -> f_next out = len (content_of file cbs chunk)) ->
+  import_all (f_inds out) (f_vals out) offs index_map (f_rows out) imps = Ok imps' ->
+  exists d', drv_step file ncols cbs index_map (mkDst chunk hd acc inds vals offs false false cont st imps tr) = Ok (inl d') /\
+    d_chunk d' = chunk + f_next out /\ d_hdr d' = false /\ d_acc d' = acc + f_rows out /\
+    d_inds d' = (if f_ifull out then zeros2 ncols ((fst (f_inds out) - 1) * 2 + 1) else f_inds out) /\
+    d_vals d' = f_vals out /\ d_offs d' = offs /\ d_ifull d' = false /\ d_vfull d' = false /\ d_imps d' = imps'.
+Proof.
+  intros Hc0 Hk Hvf Hnext Hif Himp.
+  unfold drv_step. cbn [d_ifull d_vfull d_chunk d_content d_start d_inds d_vals d_offs d_hdr d_imps d_acc d_trace negb andb].
+  cbv zeta. cbn [andb].
+  destruct (len (slice file chunk (chunk + cbs)) =? 0) eqn:E0; [apply Z.eqb_eq in E0; contradiction|].
+  unfold content_of in Hk, Hif.
+  set (content := if (chunk + len (slice file chunk (chunk + cbs)) =? len file) && negb (last (slice file chunk (chunk + cbs)) NL =? NL)
+                  then slice file chunk (chunk + cbs) ++ [NL] else slice file chunk (chunk + cbs)) in *.
+  rewrite Hk. cbn [bind]. rewrite Hvf. cbn [negb andb orb].
+  destruct (f_next out <=? 0) eqn:E1; [apply Z.leb_le in E1; lia|]. rewrite andb_false_r.
+  rewrite Himp. cbn [bind].
+  assert (Efull : (f_ifull out || false) && (f_next out <? len content) = false).
+  { destruct (f_ifull out) eqn:Ei; [|reflexivity]. cbn [orb andb]. rewrite (Hif eq_refl). apply Z.ltb_irrefl. }
+  rewrite Efull. cbn [andb].
+  eexists. split; [reflexivity|]. cbn [d_chunk d_hdr d_acc d_inds d_vals d_offs d_ifull d_vfull d_imps].
+  repeat split.
+Qed.
+
+Lemma firstn_rows_app j k : firstn (j + k) rows = firstn j rows ++ firstn k (skipn j rows).
+Proof. apply firstn_add. Qed.
+
+Lemma budget_skipn j c : 0 <= c < ncols -> nthZ offs c + len (CB (skipn j rows) c) < nthZ offs (c + 1).
+Proof. intros Hc. pose proof (Hbudget c Hc). pose proof (len_CB_skipn j rows c). lia. Qed.
+
+Lemma budget_firstn k T : (forall c, 0 <= c < ncols -> nthZ offs c + len (CB T c) < nthZ offs (c + 1)) ->
+  forall c, 0 <= c < ncols -> nthZ offs c + len (CB (firstn k T) c) < nthZ offs (c + 1).
+Proof. intros H c Hc. pose proof (H c Hc). pose proof (len_CB_firstn k T c). lia. Qed.
+
+Lemma Forall_skipn_ {A} (Pp:A -> Prop) n l : Forall Pp l -> Forall Pp (skipn n l).
+Proof.
+  revert l. induction n as [|n IH]; intros l H; [exact H|]. destruct l as [|x l]; [constructor|].
+  cbn [skipn]. inversion H; subst. auto.
+Qed.
+
+(* the state after a call that committed k more records *)
+Lemma step_finish (j k:nat) chunk hd inds vals cont st tr out wd :
+  (j + k <= length rows)%nat ->
+  chunk + f_next out = len (render_file (hdr :: firstn (j + k) rows)) ->
+  len (slice file chunk (chunk + cbs)) <> 0 ->
+  fast_csv_reader (fsm_fuel (content_of file cbs chunk) 0) (content_of file cbs chunk) 0 inds vals offs hd = Ok out ->
+  0 < f_next out -> f_rows out = Z.of_nat k -> (f_ifull out = true -> f_next out = len (content_of file cbs chunk)) ->
+  f_vfull out = false -> crs * 2 + 1 <= wd -> Z.of_nat k + 1 <= wd ->
+  Good ncols wd V offs (skipn j rows) (fun _ => Z.of_nat k) (f_inds out) (f_vals out) ->
+  exists d', drv_step file ncols cbs index_map
+               (mkDst chunk hd (Z.of_nat j) inds vals offs false false cont st (map (imp_of (firstn j rows)) index_map) tr) = Ok (inl d') /\
+             Inv (j + k) d'.
+Proof.
+  intros Hjk Hchunk Hc0 Hk Hnext Hrows Hif Hvf Hwd Hkwd HG.
+  pose proof crs_pos as Hcrs.
+  assert (Hkl : (k <= length (skipn j rows))%nat) by (rewrite skipn_length; lia).
+  pose proof (Good_firstn ncols wd V offs (skipn j rows) k (f_inds out) (f_vals out) Hkl HG) as HG2.
+  set (recs := firstn k (skipn j rows)) in *.
+  assert (Hlrecs : len recs = Z.of_nat k) by (unfold recs, len; rewrite firstn_length; lia).
+  assert (HV : nthZ offs ncols <= V) by (unfold V; lia).
+  pose proof (import_all_gen ncols wd V offs recs Hoffs ltac:(lia) Hoffs0 (budget_firstn k (skipn j rows) (budget_skipn j)) HV
+                (f_inds out) (f_vals out) HG2 index_map (map (imp_of (firstn j rows)) index_map) Himap ltac:(apply map_length)) as Himp.
+  rewrite Hlrecs, <- Hrows in Himp.
+  destruct (drv_step_post chunk hd (Z.of_nat j) inds vals cont st _ tr out _ Hc0 Hk Hvf Hnext Hif Himp)
+    as (d' & Hd & D1 & D2 & D3 & D4 & D5 & D6 & D7 & D8 & D9).
+  exists d'. split; [exact Hd|].
+  destruct HG as (Hsh & Hlv & HGc).
+  unfold Inv. split; [exact Hjk|]. split; [rewrite D1; exact Hchunk|]. split; [exact D2|].
+  split; [rewrite D3, Hrows; lia|]. split; [exact D7|]. split; [exact D8|]. split; [exact D6|]. split; [|split; [|split]].
+  - rewrite D4. destruct (f_ifull out).
+    + exists ((fst (f_inds out) - 1) * 2 + 1). destruct Hsh as (Hf & _). rewrite Hf.
+      split; [lia|]. apply shape_zeros2; lia.
+    + exists wd. split; [lia|exact Hsh].
+  - intros c Hc. rewrite D4. destruct (f_ifull out).
+    + destruct Hsh as (Hf & _). apply I2_zeros2; lia.
+    + destruct (HGc c Hc) as (_ & Hi & _). rewrite (Hi 0 ltac:(lia)). apply P_0.
+  - rewrite D5. exact Hlv.
+  - rewrite D9. rewrite combine_map_same, map_map. apply map_ext. intros c. cbn [fst snd].
+    rewrite imp_add_of. rewrite firstn_rows_app. reflexivity.
+Qed.
+
+Lemma pre_split j : render_file (hdr :: firstn j rows) ++ render_file (skipn j rows) = ALL.
+Proof. unfold ALL. rewrite <- render_file_app. cbn [app]. rewrite firstn_skipn. reflexivity. Qed.
+
+Lemma chunk_add j k : len (render_file (hdr :: firstn (j + k) rows)) =
+  len (render_file (hdr :: firstn j rows)) + len (render_file (firstn k (skipn j rows))).
+Proof. rewrite firstn_rows_app. rewrite <- len_app, <- render_file_app. reflexivity. Qed.
+
+(* an iteration after the first *)
+Lemma step_next j d : Inv j d -> (j < length rows)%nat ->
+  d_chunk d < len file /\
+  exists k d', (1 <= k)%nat /\ drv_step file ncols cbs index_map d = Ok (inl d') /\ Inv (j + k) d'.
+Proof.
+  intros (Hj & Hch & Hh & Hacc & Hif & Hvf & Hof & (wd & Hwd & Hsh) & H0 & Hlv & Himps) Hlt.
+  pose proof crs_pos as Hcrs. pose proof cbs_pos as Hcbs.
+  set (T := skipn j rows). set (pre := render_file (hdr :: firstn j rows)).
+  assert (HTne : T <> []).
+  { unfold T. intros E. pose proof (skipn_length j rows) as Hs. rewrite E in Hs. cbn in Hs. lia. }
+  assert (HTrect : Forall (fun r : list cell => len r = ncols) T) by (apply Forall_skipn_; exact Hrect).
+  assert (HTwin : forall r, In r T -> len (render_row r) <= cbs).
+  { intros r Hr. apply Hwin. right. unfold T in Hr. rewrite <- (firstn_skipn j rows). apply in_or_app. right. exact Hr. }
+  destruct (window_records file ALL cbs Hfile Hcbs ncols crs T pre eq_refl Hncols (pre_split j) HTne HTrect
+              (last_render_file _) HTwin) as (Hc0 & Hlt2 & k & p & Ec & (Hk1 & Hk2) & Hk3 & Hp).
+  fold pre in Hch. rewrite <- Hch in Hc0, Hlt2, Ec. split; [exact Hlt2|].
+  assert (HV : nthZ offs ncols <= V) by (unfold V; lia).
+  assert (Hcut : cut (wd - 1) T k p).
+  { destruct Hp as [->|(Hp1 & Hp2 & Hp3)]; [left; reflexivity|right]. split; [lia|]. split; assumption. }
+  assert (Hrange : 0 <= 0 <= len (content_of file cbs (d_chunk d))).
+  { pose proof (len_nonneg (content_of file cbs (d_chunk d))). lia. }
+  assert (Hsh' : shape ncols (wd - 1 + 1) (d_inds d)) by (replace (wd - 1 + 1) with wd by lia; exact Hsh).
+  destruct (kernel_prefix_nohdr (content_of file cbs (d_chunk d)) offs (wd - 1) ncols Hoffs Hncols ltac:(lia) V T Hoffs0
+              (budget_skipn j) HV HTrect k 0 (d_inds d) (d_vals d) p Hk2 ltac:(lia) Hrange Ec Hcut Hsh' H0 Hlv)
+    as (out & Hk & Hnext & Hrows & Hifull & Hvfull & HG).
+  rewrite Z.add_0_l in Hnext. replace (wd - 1 + 1) with wd in HG by lia.
+  assert (Hnpos : 0 < f_next out).
+  { rewrite Hnext. assert (Hne : firstn k T <> []) by (destruct T; [contradiction|destruct k; [lia|discriminate]]).
+    pose proof (render_file_nonnil _ Hne) as Hn. destruct (render_file (firstn k T)); [contradiction|].
+    rewrite len_cons. pose proof (len_nonneg l). lia. }
+  assert (Hjk : (j + k <= length rows)%nat) by (unfold T in Hk2; rewrite skipn_length in Hk2; lia).
+  exists k.
+  destruct d as [chunk hd acc inds vals doffs dif dvf cont st imps tr].
+  cbn [d_chunk d_hdr d_acc d_ifull d_vfull d_offs d_inds d_vals d_imps] in *. subst hd acc dif dvf doffs imps.
+  destruct (step_finish j k chunk false inds vals cont st tr out wd Hjk) as (d' & Hd & HI); try assumption; try lia.
+  - rewrite chunk_add. fold pre T. rewrite Hnext. lia.
+  - intros Ei. rewrite Hifull in Ei. apply Z.eqb_eq in Ei.
+    destruct Hp as [->|(Hp1 & _)]; [|lia]. rewrite Ec, app_nil_r. exact Hnext.
+  - exists d'. split; [exact Hk1|]. split; assumption.
+Qed.
+
+(* the first iteration: the header line and the records that end inside the first window *)
+Lemma step_first tr0 cont0 st0 :
+  exists k d', drv_step file ncols cbs index_map
+     (mkDst 0 true 0 (zeros2 ncols (crs * 2 + 1)) (zeros (last offs 0)) offs false false cont0 st0
+            (map (fun _ => imp_new) index_map) tr0) = Ok (inl d') /\ Inv k d' /\ 0 < len file.
+Proof.
+  pose proof crs_pos as Hcrs. pose proof cbs_pos as Hcbs.
+  assert (HTrect : Forall (fun r : list cell => len r = ncols) (hdr :: rows)) by (constructor; assumption).
+  destruct (window_records file ALL cbs Hfile Hcbs ncols crs (hdr :: rows) [] eq_refl Hncols eq_refl ltac:(discriminate) HTrect
+              eq_refl Hwin) as (Hc0 & Hlt2 & k & p & Ec & (Hk1 & Hk2) & Hk3 & Hp).
+  replace (len (@nil Z)) with 0 in * by reflexivity.
+  destruct k as [|k0]; [lia|]. cbn [firstn length nth] in *. rewrite render_file_cons, <- app_assoc in Ec.
+  assert (Hoffs_ne : offs <> []) by (intros E; rewrite E in Hoffs; unfold len in Hoffs; cbn in Hoffs; lia).
+  assert (HVl : last offs 0 = V) by (unfold V; rewrite last_nthZ by assumption; f_equal; lia).
+  assert (HVn : 0 <= V) by (apply (offs_nonneg ncols offs rows Hoffs0 Hbudget); lia).
+  assert (HV : nthZ offs ncols <= V) by (unfold V; lia).
+  assert (Hcut : cut (crs * 2) rows k0 p).
+  { destruct Hp as [->|(Hp1 & Hp2 & Hp3)]; [left; reflexivity|right]. split; [lia|]. split; [lia|exact Hp3]. }
+  destruct (kernel_prefix_hdr (content_of file cbs 0) offs (crs * 2) ncols Hoffs Hncols ltac:(lia) V rows Hoffs0
+              Hbudget HV Hrect hdr k0 (zeros2 ncols (crs * 2 + 1)) (zeros (last offs 0)) p ltac:(lia) ltac:(lia) Hhdr Ec Hcut)
+    as (out & Hk & Hnext & Hrows & Hifull & Hvfull & HG).
+  { apply shape_zeros2; lia. }
+  { intros c Hc. apply I2_zeros2; lia. }
+  { rewrite HVl. apply len_zeros. exact HVn. }
+  pose proof (len_render_row_ge hdr) as (_ & Hh1). pose proof (len_nonneg (render_file (firstn k0 rows))) as Hr0.
+  exists k0.
+  destruct (step_finish 0 k0 0 true (zeros2 ncols (crs * 2 + 1)) (zeros (last offs 0)) cont0 st0 tr0 out (crs * 2 + 1))
+    as (d' & Hd & HI); try assumption; try lia.
+  - rewrite Hnext. cbn [Nat.add]. rewrite render_file_cons, len_app. lia.
+  - intros Ei. rewrite Hifull in Ei. apply Z.eqb_eq in Ei. lia.
+  - exists d'. split; [|split; [exact HI|lia]].
+    replace (map (fun _ : Z => imp_new) index_map) with (map (imp_of (firstn 0 rows)) index_map); [exact Hd|].
+    apply map_ext. intros c. apply imp_of_nil.
+Qed.
+
+Lemma loop_done d : Inv (length rows) d -> forall fuel, (1 <= fuel)%nat ->
+  drv_loop fuel file ncols cbs index_map d = Ok d.
+Proof.
+  intros (_ & Hch & _) fuel Hf. destruct fuel as [|f]; [lia|]. cbn [drv_loop].
+  rewrite firstn_all in Hch. fold ALL in Hch.
+  assert (Hle : len file <= len ALL).
+  { destruct Hfile as [->|(E & _)]; [lia|]. rewrite <- E, len_app. pose proof (len_nonneg [NL]). lia. }
+  destruct (d_chunk d <? len file) eqn:E; [apply Z.ltb_lt in E; lia|reflexivity].
+Qed.
+
+Lemma loop_all : forall (n:nat) j d, Inv j d -> (length rows - j <= n)%nat -> forall fuel, (n + 1 <= fuel)%nat ->
+  exists d', drv_loop fuel file ncols cbs index_map d = Ok d' /\ Inv (length rows) d'.
+Proof.
+  induction n as [|n IH]; intros j d HI Hn fuel Hf.
+  - assert (j = length rows) by (destruct HI as (Hj & _); lia). subst j.
+    exists d. split; [apply loop_done; [exact HI|lia]|exact HI].
+  - destruct (Nat.eq_dec j (length rows)) as [->|Hne].
+    + exists d. split; [apply loop_done; [exact HI|lia]|exact HI].
+    + assert (Hlt : (j < length rows)%nat) by (destruct HI as (Hj & _); lia).
+      destruct (step_next j d HI Hlt) as (Hch & k & d' & Hk & Hd & HI').
+      destruct fuel as [|f]; [lia|]. cbn [drv_loop].
+      destruct (d_chunk d <? len file) eqn:E; [|apply Z.ltb_ge in E; lia].
+      rewrite Hd. cbn [bind]. apply (IH (j + k)%nat d' HI'); lia.
+Qed.
+
+Theorem read_file_multi_window fuel :
+  (length rows + 2 <= fuel)%nat ->
+  exists d, read_file fuel file crs ncols offs index_map = Ok d /\
+    d_acc d = len rows /\
+    map (fun m => (i_indices m, i_values m)) (d_imps d) =
+    map (fun ts => (enc_indices ts, enc_values ts)) (select index_map rows).
+Proof.
+  intros Hf. unfold read_file. destruct fuel as [|f]; [lia|]. cbn [drv_loop d_chunk].
+  destruct (step_first [] [] 0) as (k & d1 & Hd & HI & Hlen).
+  destruct (0 <? len file) eqn:E; [|apply Z.ltb_ge in E; lia].
+  fold cbs. rewrite Hd. cbn [bind].
+  destruct (loop_all (length rows) k d1 HI ltac:(lia) f ltac:(lia)) as (d & Hl & HId).
+  exists d. split; [exact Hl|].
+  destruct HId as (_ & _ & _ & Hacc & _ & _ & _ & _ & _ & _ & Himps).
+  split; [rewrite Hacc; reflexivity|]. rewrite Himps, firstn_all.
+  unfold select. rewrite !map_map. apply map_ext. intros c. reflexivity.
+Qed.
+
+End Driver.
